@@ -28,7 +28,7 @@ var boundedChecks = map[string][]BoundedCheck{
 	"C07": {{Prop: "C07", Name: "shapes-no-internal-error", Pkg: ".", File: "shapes_no_internal_error_test.go.txt", Run: "TestVerifShapesNoInternalError",
 		Bound: "a fixed list of 32 assignment-target shapes, 5 call shapes of a contracted variadic function and 11 range operand kinds under the default flags, plus 12 function-literal shapes with -experimental-anonymous-function on, plus the default shapes and a package of struct shapes under 3 struct-init flag combinations, run through the real analyzer: no INTERNAL diagnostic"}},
 	"C20": {{Prop: "C20", Name: "contracted-call-shapes", Pkg: ".", File: "contracted_call_shapes_test.go.txt", Run: "TestVerifContractedCallShapes",
-		Bound: "5 one-parameter one-result callee bodies x 4 argument shapes (literal nil, nil-valued variable, maybe-nil parameter, non-nil) x 2 layouts (same package, callee in a dependency), run through the real analyzer: a dereference of the result that can panic at run time is reported"}},
+		Bound: "7 one-parameter one-result callee bodies x 4 argument shapes (literal nil, nil-valued variable, maybe-nil parameter, non-nil) x 2 layouts (same package, callee in a dependency), run through the real analyzer: a dereference of the result that can panic at run time is reported"}},
 	"C13": {{Prop: "C13", Name: "prettyprint-strip-roundtrip", Pkg: ".", File: "prettyprint_roundtrip_test.go.txt", Run: "TestVerifPrettyPrintRoundTrip",
 		Bound: "all token sequences of length <= 4 (quick) / 5 (thorough) over 11 token kinds (words, `code`, \"paths\", nilability phrases, tabs, newlines, nested quote/backtick mixes)"}},
 }
